@@ -20,6 +20,7 @@ FAMILIES = {
     "fold-absorbing-shortcut": "absorbing-element shortcut (x and false, x or true, x * 0, x & 0, x | 0xffffffff) drops operands that are still evaluated / type checked at run time",
     "fold-bits-32bit-allones": "& and | are folded with a 32-bit all-ones identity (e.g. -1 & -1 folds to 4294967295)",
     "fold-const-div-var-reciprocal": "constant / variable is compiled as (1 / variable) * constant (255 / 3 gives 84.99999999999999)",
+    "fold-reassociation-absorbs-small-term": "constants of a + / - chain are combined first: x - 1e20 - .5 becomes x + (-1e20 - .5) = x - 1e20, so for x = 1e20 the result is 0 instead of -.5 (16-digit decimal arithmetic is not associative)",
 }
 
 
@@ -61,6 +62,8 @@ def classify(ev):
             fams.add("fold-absorbing-shortcut")
         if op == "div":
             fams.add("fold-const-div-var-reciprocal")
+        if op in ("add", "sub") and len(ls) >= 3 and any(v.get("t") == "num" and v["ns"] in (1, -1) and v["nx"] >= 17 for v in ls):
+            fams.add("fold-reassociation-absorbs-small-term")
     walk(ev["x"])
     return fams
 
